@@ -308,6 +308,12 @@ MutClear(id) ==
     /\ MutCommon(id, "MutClear") /\ IsComposed(heap[id].n) /\ Len(heap[id].py) > 0
     /\ heap' = [heap EXCEPT ![id].kids = <<>>, ![id].py = <<>>]
 
+MutEnabled(op, id) ==
+    /\ Done /\ nmut < MaxMut /\ id \in Mutable
+    /\ (op \in {"MutSet", "MutDel", "MutClear"} => IsComposed(heap[id].n))
+    /\ (op = "MutDel" => Len(heap[id].kids) > 0 /\ heap[id].kids = heap[id].py)
+    /\ (op = "MutClear" => Len(heap[id].py) > 0)
+
 Mutate == \E id \in DOMAIN heap : MutMd(id) \/ MutPr(id) \/ MutSet(id) \/ MutDel(id) \/ MutClear(id)
 Edit == \E id \in DOMAIN heap : EditAppend(id) \/ \E pos \in 0..2 : EditInsert(id, pos)
 
